@@ -378,6 +378,7 @@ func trip(c *rt.Ctx, w *rt.W, cs Case, keep string) (o outcome) {
 	if err != nil {
 		panic(err)
 	}
+	var cur []migrate.File
 	if cs.Rewrite {
 		longer := *plan
 		longer.Changes = append(append([]*migrate.Change(nil), plan.Changes...),
@@ -389,8 +390,20 @@ func trip(c *rt.Ctx, w *rt.W, cs Case, keep string) (o outcome) {
 			o.why, o.class = "Format: "+err.Error(), "format-error"
 			return
 		}
-		for _, fl := range prev {
-			if err := md.WriteFile(fl.Name(), fl.Bytes()); err != nil {
+		// The third-party formatters name their files after the wall clock ({{ now }}): the second write
+		// must go to the SAME names whatever the clock does between the two Format calls, so the plan
+		// under test is formatted now and its names are used for both writes.
+		cur, err = f.Format(plan)
+		if err != nil {
+			o.why, o.class = "Format: "+err.Error(), "format-error"
+			return
+		}
+		if len(cur) != len(prev) {
+			o.ood = "rewrite-file-count-differs"
+			return
+		}
+		for i, fl := range prev {
+			if err := md.WriteFile(cur[i].Name(), fl.Bytes()); err != nil {
 				panic(err)
 			}
 		}
@@ -406,10 +419,12 @@ func trip(c *rt.Ctx, w *rt.W, cs Case, keep string) (o outcome) {
 			return
 		}
 	} else {
-		files, err := f.Format(plan)
-		if err != nil {
-			o.why, o.class = "Format: "+err.Error(), "format-error"
-			return
+		files := cur
+		if files == nil {
+			if files, err = f.Format(plan); err != nil {
+				o.why, o.class = "Format: "+err.Error(), "format-error"
+				return
+			}
 		}
 		for _, fl := range files {
 			// through the directory's own WriteFile, as `migrate diff` does for every format
